@@ -5,9 +5,11 @@ PROP = 'C04'
 SITES = [('expand_macros', []), ('expand_macros_preserve', [])]
 CONFIGS = {
     'quick': [('macro-rich', ('H_M', 'M_MA', 'T_MA', 'O_MA', 1, 3), 4000),
-              ('body-rich', ('H_M', 'M_MB', 'T_MB', 'O_MB', 3, 3), 4000)],
+              ('body-rich', ('H_M', 'M_MB', 'T_MB', 'O_MB', 3, 3), 4000),
+              ('nest3', ('H_M', 'M_N3', 'T_N3', 'O_N3', 2, 2), 2000)],
     'thorough': [('macro-rich', ('H_M', 'M_MA', 'T_MA', 'O_MA', 2, 3), 60000),
-                 ('body-rich', ('H_M', 'M_MB', 'T_MB', 'O_MB', 4, 4), 60000)],
+                 ('body-rich', ('H_M', 'M_MB', 'T_MB', 'O_MB', 4, 4), 60000),
+                 ('nest3', ('H_M', 'M_N3', 'T_N3', 'O_N3', 3, 3), 40000)],
 }
 OWNED = {'accepted', 'no_macro_calls', 'meaning_mod_sub', 'sub_annotations', 'header_carried',
          'imports_carried', 'definitions', 'refs_follow_decls'}
@@ -22,7 +24,7 @@ def owned(site):
 def nontrivial(prog):
     """>= 1 macro call in the main body whose macro uses a parameter or calls another macro"""
     txt = repr(prog['body'])
-    return any(("'v': '%s'" % m['v']) in txt and ('param' in repr(m['body']) or "'m1'" in repr(m['body']))
+    return any(("'v': '%s'" % m['v']) in txt and ('param' in repr(m['body']) or "'m1'" in repr(m['body']) or "'m2'" in repr(m['body']))
                for m in prog['macros'])
 
 
